@@ -5,7 +5,7 @@ EXTENDS Rdump
 CONSTANT Small
 R1 == <<Rec(1, "A"), Rec(2, "B"), Rec(3, "A")>>
 R2 == <<Rec(4, "B"), Rec(5, "A"), Rec(6, "B")>>
-R3 == <<Rec(7, "A")>>
+R3 == <<Rec(7, "A"), Rec(8, "A2")>>
 SrcChoices(rs) == {[kind |-> "good", recs |-> rs, keep |-> Len(rs)], [kind |-> "missing", recs |-> rs, keep |-> 0],
                    [kind |-> "garbage", recs |-> rs, keep |-> 0]} \cup {[kind |-> "trunc", recs |-> rs, keep |-> k] : k \in 0..(Len(rs) - 1)}
 Layouts == {<<x, y, z>> : x \in SrcChoices(R1), y \in SrcChoices(R2), z \in SrcChoices(R3)}
